@@ -737,6 +737,354 @@ theorem violations_rule (keys dd : List String) (R : Registry) (p : List ProgFil
   obtain ⟨y, _, h⟩ := h
   exact declRules_rule _ _ _ _ x h
 
+/-- the import-related diagnostics of a visit: they do not depend on the registry -/
+def importDiags (cfg : Cfg) (fs : FS) : Visit → List Diag
+  | .file f s A loads _ => loads.flatMap (lineDiags cfg fs A f s)
+  | .undecodable p pos => [mk "ParsingException" "not-utf8" (showPath p) pos]
+  | _ => []
+
+/-- the rule violations of a visit, `R` being the registry before it -/
+def ruleDiags (cfg : Cfg) (R : Registry) : Visit → List Diag
+  | .file f _ _ _ contents => violations cfg.keys cfg.defaultDeriving R [{ file := showPath f, contents := contents }]
+  | _ => []
+
+/-- the rule violations of a list of visits: every IDL file read against the registry of its moment — built-ins, the
+    declarations of the files finished before, the external types loaded before, and its own declarations
+    (`violationsOrdered` with the `@extern` loads at their place) -/
+def programViolations (cfg : Cfg) : Registry → List Visit → List Diag
+  | _, [] => []
+  | R, v :: vs => ruleDiags cfg R v ++ programViolations cfg (R ++ visitDefs v) vs
+
+theorem visitDiags_eq (cfg : Cfg) (fs : FS) (R : Registry) (v : Visit) :
+    visitDiags cfg fs R v = importDiags cfg fs v ++ ruleDiags cfg R v := by
+  cases v <;> simp [visitDiags, importDiags, ruleDiags]
+
+/-- the specification is, up to order, the import diagnostics of all visits and the rule violations of all visits -/
+theorem diagsFrom_perm (cfg : Cfg) (fs : FS) (R : Registry) (vs : List Visit) :
+    (diagsFrom cfg fs R vs).Perm (vs.flatMap (importDiags cfg fs) ++ programViolations cfg R vs) := by
+  induction vs generalizing R with
+  | nil => simp [diagsFrom, programViolations]
+  | cons v vs ih =>
+    simp only [diagsFrom, programViolations, List.flatMap_cons, visitDiags_eq]
+    exact (List.Perm.append_left _ (ih _)).trans (perm_shuffle _ _ _ _)
+
+theorem programViolations_rule (cfg : Cfg) (R : Registry) (vs : List Visit) (x : Diag)
+    (h : x ∈ programViolations cfg R vs) : x.rule ∈ ruleNames := by
+  induction vs generalizing R with
+  | nil => cases h
+  | cons v vs ih =>
+    simp only [programViolations, List.mem_append] at h
+    rcases h with h | h
+    · cases v with
+      | file f s A loads contents => exact violations_rule _ _ _ _ x h
+      | extern p defs => cases h
+      | undecodable p pos => cases h
+      | broken p => cases h
+    · exact ih _ h
+
+/-- the names of the import-related diagnostics -/
+def importRuleNames : List String := ["missing-file", "circular-import", "extern-not-utf8", "bad-extern", "not-utf8"]
+
+theorem lineDiags_rule (cfg : Cfg) (fs : FS) (A : List APath) (f s : APath) (l : LoadAt) (x : Diag)
+    (h : x ∈ lineDiags cfg fs A f s l) : x.rule ∈ importRuleNames := by
+  unfold lineDiags at h
+  split at h
+  · simp only [List.mem_singleton] at h; subst h; simp [importRuleNames, mk]
+  · split at h
+    · simp only [List.mem_singleton] at h; subst h; simp [importRuleNames, mk]
+    · split at h
+      · split at h
+        · simp only [List.mem_singleton] at h; subst h; simp [importRuleNames, mk]
+        · cases h
+      · split at h
+        · cases h
+        · simp only [List.mem_singleton] at h; subst h; simp [importRuleNames, mk]
+        · simp only [List.mem_singleton] at h; subst h; simp [importRuleNames, mk]
+
+theorem importDiags_rule (cfg : Cfg) (fs : FS) (v : Visit) (x : Diag) (h : x ∈ importDiags cfg fs v) :
+    x.rule ∈ importRuleNames := by
+  cases v with
+  | file f s A loads contents =>
+    obtain ⟨l, _, hl⟩ := List.mem_flatMap.mp h
+    exact lineDiags_rule cfg fs A f s l x hl
+  | extern p defs => cases h
+  | undecodable p pos =>
+    simp only [importDiags, List.mem_singleton] at h; subst h; simp [importRuleNames, mk]
+  | broken p => cases h
+
+theorem importRule_not_rule (r : String) (h : r ∈ importRuleNames) : r ∉ ruleNames := by
+  simp only [importRuleNames, List.mem_cons, List.not_mem_nil, or_false] at h
+  rcases h with rfl | rfl | rfl | rfl | rfl <;> simp [ruleNames]
+
+/-- a diagnostic with an import-related name is in the specification iff some visit is reported for it — whatever the
+    registry -/
+theorem mem_diagsFrom_import (cfg : Cfg) (fs : FS) (R : Registry) (vs : List Visit) (x : Diag)
+    (hx : x.rule ∈ importRuleNames) :
+    x ∈ diagsFrom cfg fs R vs ↔ ∃ v ∈ vs, x ∈ importDiags cfg fs v := by
+  rw [(diagsFrom_perm cfg fs R vs).mem_iff, List.mem_append, List.mem_flatMap]
+  constructor
+  · rintro (h | h)
+    · exact h
+    · exact absurd (programViolations_rule cfg R vs x h) (importRule_not_rule _ hx)
+  · exact Or.inl
+
+/-- a diagnostic with the name of a language rule is in the specification iff it is a rule violation -/
+theorem mem_diagsFrom_rule (cfg : Cfg) (fs : FS) (R : Registry) (vs : List Visit) (x : Diag)
+    (hx : x.rule ∈ ruleNames) :
+    x ∈ diagsFrom cfg fs R vs ↔ x ∈ programViolations cfg R vs := by
+  rw [(diagsFrom_perm cfg fs R vs).mem_iff, List.mem_append, List.mem_flatMap]
+  constructor
+  · rintro (⟨v, _, h⟩ | h)
+    · exact absurd hx (importRule_not_rule _ (importDiags_rule cfg fs v x h))
+    · exact h
+  · exact Or.inr
+
+/-! ### load lines, declaratively -/
+
+/-- a load line that is reported for nothing: it finds a file, does not refer to the file itself, and — an `@import` —
+    does not lead to a file that is being imported, or — an `@extern` — leads to a valid external type file -/
+def LineOk (cfg : Cfg) (fs : FS) (A : List APath) (f s : APath) (l : LoadAt) : Prop :=
+  ∃ c p, findFile cfg fs s (filepathText l.lit) = some (c, p) ∧ refersToSelf c s = false ∧
+    ((l.isImport = true ∧ p ∉ A ++ [f]) ∨ (l.isImport = false ∧ ∃ defs, fs.get p = some (.ext defs)))
+
+/-- a load line that closes a cycle: it refers to the file itself under the file's own spelling, or it is an `@import`
+    of a file that is being imported (an ancestor, or the file itself under another spelling) -/
+def ClosesCycle (cfg : Cfg) (fs : FS) (A : List APath) (f s : APath) (l : LoadAt) : Prop :=
+  ∃ c p, findFile cfg fs s (filepathText l.lit) = some (c, p) ∧
+    (refersToSelf c s = true ∨ (l.isImport = true ∧ p ∈ A ++ [f]))
+
+theorem lineDiags_some (cfg : Cfg) (fs : FS) (A : List APath) (f s : APath) (l : LoadAt) (c : Cand) (p : APath)
+    (hfind : findFile cfg fs s (filepathText l.lit) = some (c, p)) :
+    lineDiags cfg fs A f s l =
+      if refersToSelf c s then [mk "ParsingException" "circular-import" (showPath f) l.pathPos]
+      else if l.isImport then
+        (if (A ++ [f]).contains p then [mk "ParsingException" "circular-import" (showPath f) l.pos] else [])
+      else
+        match fs.get p with
+        | some (.ext _) => []
+        | some (.notText pos) => [mk "InputParsingException" "extern-not-utf8" (showPath p) pos]
+        | _ => [mk "InputParsingException" "bad-extern" (showPath p) default] := by
+  simp only [lineDiags, hfind]
+  rfl
+
+theorem lineDiags_eq_nil_iff (cfg : Cfg) (fs : FS) (A : List APath) (f s : APath) (l : LoadAt) :
+    lineDiags cfg fs A f s l = [] ↔ LineOk cfg fs A f s l := by
+  unfold LineOk
+  cases hfind : findFile cfg fs s (filepathText l.lit) with
+  | none => simp [lineDiags, hfind]
+  | some cp =>
+    obtain ⟨c, p⟩ := cp
+    rw [lineDiags_some cfg fs A f s l c p hfind]
+    simp only [Option.some.injEq, Prod.mk.injEq]
+    cases hs : refersToSelf c s with
+    | true =>
+      simp only [if_true, List.cons_ne_nil, false_iff]
+      rintro ⟨c', p', ⟨rfl, rfl⟩, h, _⟩
+      rw [hs] at h; cases h
+    | false =>
+      simp only [Bool.false_eq_true, if_false]
+      cases himp : l.isImport with
+      | true =>
+        by_cases hm : p ∈ A ++ [f]
+        · have : (A ++ [f]).contains p = true := by simpa using hm
+          simp only [this, if_true, List.cons_ne_nil, false_iff]
+          rintro ⟨c', p', ⟨rfl, rfl⟩, _, h | h⟩
+          · exact h.2 hm
+          · cases h.1
+        · have : (A ++ [f]).contains p = false := by simpa using hm
+          simp only [this, Bool.false_eq_true, if_false, if_true, true_iff]
+          exact ⟨c, p, ⟨rfl, rfl⟩, hs, Or.inl ⟨trivial, hm⟩⟩
+      | false =>
+        simp only [Bool.false_eq_true, if_false]
+        cases hg : fs.get p with
+        | none =>
+          simp only [List.cons_ne_nil, false_iff]
+          rintro ⟨c', p', ⟨rfl, rfl⟩, _, h | ⟨_, defs, h⟩⟩
+          · cases h.1
+          · rw [hg] at h; cases h
+        | some fc =>
+          cases fc with
+          | ext defs =>
+            simp only [true_iff]
+            exact ⟨c, p, ⟨rfl, rfl⟩, hs, Or.inr ⟨trivial, defs, hg⟩⟩
+          | idl text =>
+            simp only [List.cons_ne_nil, false_iff]
+            rintro ⟨c', p', ⟨rfl, rfl⟩, _, h | ⟨_, defs, h⟩⟩
+            · cases h.1
+            · rw [hg] at h; cases h
+          | badExt =>
+            simp only [List.cons_ne_nil, false_iff]
+            rintro ⟨c', p', ⟨rfl, rfl⟩, _, h | ⟨_, defs, h⟩⟩
+            · cases h.1
+            · rw [hg] at h; cases h
+          | notText pos =>
+            simp only [List.cons_ne_nil, false_iff]
+            rintro ⟨c', p', ⟨rfl, rfl⟩, _, h | ⟨_, defs, h⟩⟩
+            · cases h.1
+            · rw [hg] at h; cases h
+
+theorem mem_lineDiags_missing (cfg : Cfg) (fs : FS) (A : List APath) (f s : APath) (l : LoadAt) (x : Diag)
+    (hx : x.rule = "missing-file") :
+    x ∈ lineDiags cfg fs A f s l ↔
+      findFile cfg fs s (filepathText l.lit) = none ∧ x = mk "FileNotFoundException" "missing-file" (showPath f) l.pathPos := by
+  unfold lineDiags
+  cases hfind : findFile cfg fs s (filepathText l.lit) with
+  | none => simp
+  | some cp =>
+    obtain ⟨c, p⟩ := cp
+    simp only [reduceCtorEq, false_and, iff_false]
+    intro h
+    split at h
+    · simp only [List.mem_singleton] at h; subst h; simp [mk] at hx
+    · split at h
+      · split at h
+        · simp only [List.mem_singleton] at h; subst h; simp [mk] at hx
+        · cases h
+      · split at h
+        · cases h
+        · simp only [List.mem_singleton] at h; subst h; simp [mk] at hx
+        · simp only [List.mem_singleton] at h; subst h; simp [mk] at hx
+
+theorem exists_circular_lineDiags_iff (cfg : Cfg) (fs : FS) (A : List APath) (f s : APath) (l : LoadAt) :
+    (∃ x ∈ lineDiags cfg fs A f s l, x.rule = "circular-import") ↔ ClosesCycle cfg fs A f s l := by
+  unfold ClosesCycle
+  cases hfind : findFile cfg fs s (filepathText l.lit) with
+  | none => simp [lineDiags, hfind, mk]
+  | some cp =>
+    obtain ⟨c, p⟩ := cp
+    rw [lineDiags_some cfg fs A f s l c p hfind]
+    simp only [Option.some.injEq, Prod.mk.injEq]
+    cases hs : refersToSelf c s with
+    | true =>
+      simp only [if_true, List.mem_singleton, exists_eq_left, mk, true_iff]
+      exact ⟨c, p, ⟨rfl, rfl⟩, Or.inl hs⟩
+    | false =>
+      simp only [Bool.false_eq_true, if_false]
+      have hno : ∀ (P : Prop), (P ↔ ∃ c' p', (c = c' ∧ p = p') ∧ (refersToSelf c' s = true ∨ l.isImport = true ∧ p' ∈ A ++ [f]))
+          ↔ (P ↔ (l.isImport = true ∧ p ∈ A ++ [f])) := by
+        intro P
+        refine iff_congr Iff.rfl ⟨?_, fun h => ⟨c, p, ⟨rfl, rfl⟩, Or.inr h⟩⟩
+        rintro ⟨c', p', ⟨rfl, rfl⟩, h | h⟩
+        · rw [hs] at h; cases h
+        · exact h
+      rw [hno]
+      cases himp : l.isImport with
+      | true =>
+        by_cases hm : p ∈ A ++ [f]
+        · have : (A ++ [f]).contains p = true := by simpa using hm
+          simp only [this, if_true, List.mem_singleton, exists_eq_left, mk, true_and, true_iff]
+          exact hm
+        · have : (A ++ [f]).contains p = false := by simpa using hm
+          simp only [this, Bool.false_eq_true, if_false, if_true, List.not_mem_nil, false_and, exists_false, false_iff]
+          exact fun h => hm h.2
+      | false =>
+        simp only [Bool.false_eq_true, if_false, false_and, iff_false]
+        rintro ⟨x, hx, hr⟩
+        split at hx
+        · cases hx
+        · simp only [List.mem_singleton] at hx; subst hx; simp [mk] at hr
+        · simp only [List.mem_singleton] at hx; subst hx; simp [mk] at hr
+
+/-! ### corollaries: missing files, circular imports, acceptance -/
+
+/-- **Missing files (C16).** Under the hypotheses of `front_eq_programDiags`: a diagnostic named `missing-file` is
+    reported iff it is the `FileNotFoundException` at the path token of a load line `l` of a visited IDL file `f`
+    (in the spelling `s` the file was found under) for which no search candidate exists. -/
+theorem front_missing_iff (cfg : Cfg) (fs : FS) (builtins : Registry) (root : APath)
+    (hb : (builtins.map (·.key)).Nodup) (hgood : GoodV cfg (rootVisits cfg fs root))
+    (hdup : (programKeys builtins (rootVisits cfg fs root)).Nodup) :
+    ∃ ds, front cfg fs builtins root = (if ds = [] then Outcome.ok else Outcome.diags ds) ∧
+      ∀ x, x.rule = "missing-file" →
+        (x ∈ ds ↔ ∃ f s A loads contents, Visit.file f s A loads contents ∈ rootVisits cfg fs root ∧
+          ∃ l ∈ loads, findFile cfg fs s (filepathText l.lit) = none
+            ∧ x = mk "FileNotFoundException" "missing-file" (showPath f) l.pathPos) := by
+  obtain ⟨ds, hfront, hmem⟩ := front_mem_programDiags cfg fs builtins root hb hgood hdup
+  refine ⟨ds, hfront, fun x hx => ?_⟩
+  rw [hmem x, programDiags, mem_diagsFrom_import cfg fs _ _ x (by rw [hx]; simp [importRuleNames])]
+  constructor
+  · rintro ⟨v, hv, h⟩
+    cases v with
+    | file f s A loads contents =>
+      obtain ⟨l, hl, hxl⟩ := List.mem_flatMap.mp h
+      exact ⟨f, s, A, loads, contents, hv, l, hl, (mem_lineDiags_missing cfg fs A f s l x hx).mp hxl⟩
+    | extern p defs => cases h
+    | undecodable p pos =>
+      simp only [importDiags, List.mem_singleton] at h; subst h; simp [mk] at hx
+    | broken p => cases h
+  · rintro ⟨f, s, A, loads, contents, hv, l, hl, h⟩
+    exact ⟨_, hv, List.mem_flatMap.mpr ⟨l, hl, (mem_lineDiags_missing cfg fs A f s l x hx).mpr h⟩⟩
+
+/-- **Circular imports (C16), line by line.** Under the hypotheses of `front_eq_programDiags`: some diagnostic named
+    `circular-import` is reported iff some load line of some visited IDL file closes a cycle (`ClosesCycle`: it refers
+    to the file itself, or imports a file that is being imported). -/
+theorem front_circular_iff_line (cfg : Cfg) (fs : FS) (builtins : Registry) (root : APath)
+    (hb : (builtins.map (·.key)).Nodup) (hgood : GoodV cfg (rootVisits cfg fs root))
+    (hdup : (programKeys builtins (rootVisits cfg fs root)).Nodup) :
+    ∃ ds, front cfg fs builtins root = (if ds = [] then Outcome.ok else Outcome.diags ds) ∧
+      ((∃ x ∈ ds, x.rule = "circular-import") ↔
+        ∃ f s A loads contents, Visit.file f s A loads contents ∈ rootVisits cfg fs root ∧
+          ∃ l ∈ loads, ClosesCycle cfg fs A f s l) := by
+  obtain ⟨ds, hfront, hmem⟩ := front_mem_programDiags cfg fs builtins root hb hgood hdup
+  refine ⟨ds, hfront, ?_⟩
+  constructor
+  · rintro ⟨x, hxd, hx⟩
+    rw [hmem x, programDiags, mem_diagsFrom_import cfg fs _ _ x (by rw [hx]; simp [importRuleNames])] at hxd
+    obtain ⟨v, hv, h⟩ := hxd
+    cases v with
+    | file f s A loads contents =>
+      obtain ⟨l, hl, hxl⟩ := List.mem_flatMap.mp h
+      exact ⟨f, s, A, loads, contents, hv, l, hl, (exists_circular_lineDiags_iff cfg fs A f s l).mp ⟨x, hxl, hx⟩⟩
+    | extern p defs => cases h
+    | undecodable p pos =>
+      simp only [importDiags, List.mem_singleton] at h; subst h; simp [mk] at hx
+    | broken p => cases h
+  · rintro ⟨f, s, A, loads, contents, hv, l, hl, h⟩
+    obtain ⟨x, hxl, hx⟩ := (exists_circular_lineDiags_iff cfg fs A f s l).mpr h
+    refine ⟨x, ?_, hx⟩
+    rw [hmem x, programDiags, mem_diagsFrom_import cfg fs _ _ x (by rw [hx]; simp [importRuleNames])]
+    exact ⟨_, hv, List.mem_flatMap.mpr ⟨l, hl, hxl⟩⟩
+
+/-- **Acceptance.** Under the hypotheses of `front_eq_programDiags`, the front end accepts the program iff
+    * every load line of every visited IDL file is `LineOk`: it finds a file (no missing file), closes no cycle (no
+      self reference, no import of a file being imported), and an `@extern` line leads to a valid external type file
+      (no bad extern);
+    * no imported file is undecodable;
+    * and no IDL file violates a language rule, read against the registry of its moment (`programViolations`). -/
+theorem front_ok_iff (cfg : Cfg) (fs : FS) (builtins : Registry) (root : APath)
+    (hb : (builtins.map (·.key)).Nodup) (hgood : GoodV cfg (rootVisits cfg fs root))
+    (hdup : (programKeys builtins (rootVisits cfg fs root)).Nodup) :
+    front cfg fs builtins root = .ok ↔
+      (∀ f s A loads contents, Visit.file f s A loads contents ∈ rootVisits cfg fs root →
+          ∀ l ∈ loads, LineOk cfg fs A f s l)
+        ∧ (∀ p pos, Visit.undecodable p pos ∉ rootVisits cfg fs root)
+        ∧ programViolations cfg builtins (rootVisits cfg fs root) = [] := by
+  rw [front_ok_iff_programDiags cfg fs builtins root hb hgood hdup, programDiags]
+  have hperm := diagsFrom_perm cfg fs builtins (rootVisits cfg fs root)
+  constructor
+  · intro h
+    rw [h] at hperm
+    have h0 := hperm.symm.eq_nil
+    rw [List.append_eq_nil_iff, List.flatMap_eq_nil_iff] at h0
+    refine ⟨fun f s A loads contents hv l hl => ?_, fun p pos hv => ?_, h0.2⟩
+    · have := h0.1 _ hv
+      simp only [importDiags, List.flatMap_eq_nil_iff] at this
+      exact (lineDiags_eq_nil_iff cfg fs A f s l).mp (this l hl)
+    · have := h0.1 _ hv
+      simp [importDiags] at this
+  · rintro ⟨h1, h2, h3⟩
+    have h0 : (rootVisits cfg fs root).flatMap (importDiags cfg fs) = [] := by
+      rw [List.flatMap_eq_nil_iff]
+      intro v hv
+      cases v with
+      | file f s A loads contents =>
+        simp only [importDiags, List.flatMap_eq_nil_iff]
+        exact fun l hl => (lineDiags_eq_nil_iff cfg fs A f s l).mpr (h1 f s A loads contents hv l hl)
+      | extern p defs => rfl
+      | undecodable p pos => exact absurd hv (h2 p pos)
+      | broken p => rfl
+    rw [h0, h3] at hperm
+    exact hperm.eq_nil
+
 instance (cfg : Cfg) (v : Visit) : Decidable (VisitOk cfg v) := by
   cases v <;> unfold VisitOk <;> infer_instance
 
